@@ -425,12 +425,18 @@ func (p *PF) run(fn *ssa.Function, entry StateSet, visit func(fn *ssa.Function, 
 			if edgeIn[succ.Index] == nil {
 				edgeIn[succ.Index] = make([]StateSet, len(succ.Preds))
 			}
+			edgeGrew := false
 			for pi, pb := range succ.Preds {
 				if pb == b && (len(b.Succs) < 2 || b.Succs[0] != b.Succs[1] || pi == predIndexOf(succ, b, idx)) {
+					if edgeIn[succ.Index][pi]|es != edgeIn[succ.Index][pi] {
+						edgeGrew = true
+					}
 					edgeIn[succ.Index][pi] |= es
 				}
 			}
-			if es|in[succ.Index] != in[succ.Index] || (!visited[succ.Index] && es != 0) {
+			// (a flag-test block forwards each incoming edge separately: it must be looked at again when ONE edge brings new
+			// states, even if the union over all edges did not grow)
+			if es|in[succ.Index] != in[succ.Index] || (!visited[succ.Index] && es != 0) || edgeGrew {
 				in[succ.Index] |= es
 				if !onWork[succ.Index] {
 					work = append(work, succ)
